@@ -35,7 +35,7 @@ type vpCaptured struct {
 
 type vpConfig struct {
 	entries     []git.ConfigEntry // what `git config --list` reports (refgroup definitions)
-	threshold   int               // 0 absent, 1 valid "0.5", 2 invalid
+	threshold   int               // 0 absent, 1 valid "0.1" (not exactly representable: read with full double precision), 2 invalid
 	names       int // 0 absent, 1 "hash", 2 invalid
 	jsonVersion int // 0 absent, 1 -> 2, 2 -> 3 (invalid)
 	progress    int // 0 absent, 1 true
@@ -62,7 +62,7 @@ func vpInstallMainStubs(cfg *vpConfig, cap *vpCaptured, probe string) {
 		case "sizer.threshold":
 			switch cfg.threshold {
 			case 1:
-				return "0.5", nil
+				return "0.1", nil
 			case 2:
 				return "bogus", nil
 			}
@@ -155,6 +155,7 @@ var vpThresholdMenu = []vpOpt{
 	{arg: "--threshold=2.5", family: "t", thr: 2.5}, {arg: "--verbose", family: "t", thr: 0}, {arg: "-v", family: "t", thr: 0},
 	{arg: "--no-verbose", family: "t", thr: 1}, {arg: "--critical", family: "t", thr: 30}, {arg: "--threshold=0", family: "t", thr: 0},
 	{arg: "--verbose=false", family: "t", thr: 1}, {arg: "--critical=false", family: "t", thr: 1},
+	{arg: "--threshold=50", family: "t", thr: 50}, // stricter than --critical: taken as given, like the gitconfig value
 }
 var vpNamesMenu = []vpOpt{
 	{arg: "--names=none", family: "n", ns: sizes.NameStyleNone}, {arg: "--names=hash", family: "n", ns: sizes.NameStyleHash},
@@ -230,7 +231,7 @@ func VPH_mainOptions() {
 	if fam == 0 && !famSeen {
 		switch cfg.threshold {
 		case 1:
-			wantThr = 0.5
+			wantThr = 0.1
 		case 2:
 			wantErr = true
 		}
@@ -473,6 +474,9 @@ func VPH_mainSelection() {
 	vp_Assert(cap.walkProbe == want, "traversed iff the last matching option includes it; none given: all references, or none when ROOTs are given")
 	if withRoot {
 		vp_Assert(cap.roots == 1, "the ROOT argument is a root of the scan")
+	} else {
+		// (the scripted repository lists no reference, so every root would be one the program invented)
+		vp_Assert(cap.roots == 0, "without ROOT arguments nothing but references is scanned - whatever the selection matches")
 	}
 	vp_Reach("end")
 }
@@ -699,7 +703,7 @@ func VPH_mainCrossFamily() {
 	if !thrOpt {
 		switch cfg.threshold {
 		case 1:
-			wantThr = 0.5
+			wantThr = 0.1
 		case 2:
 			wantErr = true
 		}
